@@ -391,15 +391,66 @@ theorem endpoint_receive_refines (c : RChunk) (e : Ep) (l : List Out) (rx : Rx) 
       ∧ e'.rx = some r'.rx ∧ e'.inStreams = r'.streams :=
   receiveData_refines c e l rx r' msgs hrx hstep
 
-/-- `dcReceive` (`_data_channel_receive` in the endpoint automaton) on a user message: the state is unchanged and
-the only possible output is ONE `message` event, on the channel registered for that stream id, with the value and
-type given by `decodeUser`. -/
+/-- `dcReceive` (`_data_channel_receive` in the endpoint automaton) on a user message, with application handlers
+that may re-enter `send()` (the echo-in-on-message idiom): either nothing happens at all (state and outputs unchanged),
+or exactly ONE `message` event is emitted, on the channel registered for that stream id, with the value and type given
+by `decodeUser`, followed only by handler outputs (`task` / `rexc`), and the state changes at most as one handler run
+may change it (`ReactFrame`): one reaction consumed, `chans[i].buffered` increased, one user-data entry for channel `i`
+appended to `dcQueue`, one `flush` task appended — every other field is equal (`ReactFrame.rest`), in particular
+`rx`, `inStreams`, `sackNeeded`, `dataChannels`, `tx` (`ReactFrame.fields`). -/
 theorem endpoint_dcReceive_user (sid ppid : Nat) (data : Bytes) (e : Ep) (l : List Out)
     (h : (ppid = WEBRTC_DCEP && !data.isEmpty) = false) :
-    ∃ res evs, (dcReceive sid ppid data).run.run (e, l) = (res, (e, l ++ evs))
-      ∧ ∀ ev ∈ evs, ∃ i b d, ev = Out.evMessage i b d ∧ decodeUser ppid data = some (b, d)
-          ∧ dictGet e.dataChannels sid = some i :=
-  dcReceive_user sid ppid data e l h
+    ∃ res e' evs, (dcReceive sid ppid data).run.run (e, l) = (res, (e', l ++ evs))
+      ∧ ((evs = [] ∧ e' = e) ∨
+         ∃ i b d tail, evs = Out.evMessage i b d :: tail ∧ decodeUser ppid data = some (b, d)
+           ∧ dictGet e.dataChannels sid = some i ∧ ReactFrame i e e' ∧ ∀ o ∈ tail, IsHandlerOut o)
+      ∧ e'.rx = e.rx ∧ e'.inStreams = e.inStreams ∧ e'.sackNeeded = e.sackNeeded
+      ∧ e'.dataChannels = e.dataChannels ∧ e'.tx = e.tx := by
+  obtain ⟨res, e', evs, hrun, hcase⟩ := dcReceive_user sid ppid data e l h
+  refine ⟨res, e', evs, hrun, hcase, ?_⟩
+  rcases hcase with ⟨_, rfl⟩ | ⟨i, b, d, tail, _, _, _, hfr, _⟩
+  · exact ⟨rfl, rfl, rfl, rfl, rfl⟩
+  · obtain ⟨h1, h2, h3, h4, h5, _, _⟩ := hfr.fields
+    exact ⟨h1, h2, h3, h4, h5⟩
+
+/-- What a handler run may change, spelled out (the fields of `ReactFrame`). -/
+theorem reactFrame_spelled {i : Nat} {e e' : Ep} (h : ReactFrame i e e') :
+    e' = { e with reactions := e'.reactions, chans := e'.chans, dcQueue := e'.dcQueue, tasks := e'.tasks }
+    ∧ (e'.reactions = e.reactions ∨ ∃ r ∈ e.reactions, e'.reactions = e.reactions.erase r)
+    ∧ (e'.chans = e.chans ∨ ∃ (c : Chan) (a : Int), e.chans[i]? = some c ∧ 0 < a
+        ∧ e'.chans = e.chans.set i { c with buffered := c.buffered + a })
+    ∧ (e'.dcQueue = e.dcQueue
+        ∨ ∃ isStr d, e'.dcQueue = e.dcQueue ++ [(i, (userData isStr d).1, (userData isStr d).2)])
+    ∧ (e'.tasks = e.tasks ∨ e'.tasks = e.tasks ++ [Task.flush]) :=
+  ⟨h.rest, h.reactions, h.chans, h.dcQueue, h.tasks⟩
+
+/-- Echo handlers preserve order.  `msgs`: user messages of one stream `sid` whose channel `i` is open with the
+application's handlers attached (`EchoReady`), at least as many `message` handlers armed for `i` (`echoes i e`, in
+arming order) as there are messages.  Then `deliver msgs` (the `_receive` loop of `_receive_data_chunk`) succeeds,
+emits exactly one `message` event per message in delivery order (`msgEvents`), the `k`-th delivery consumes the
+`k`-th armed handler, and the handlers' re-entrant `send()`s are appended to `dcQueue` in that same order; `rx` and
+`inStreams` are untouched, the remaining handlers stay armed in order. -/
+theorem echo_preserves_order (sid i : Nat) (msgs : List Msg) (e : Ep) (l : List Out) (hready : EchoReady sid i e)
+    (hmsgs : ∀ m ∈ msgs, m.sid = sid ∧ (m.ppid = WEBRTC_DCEP && !m.data.isEmpty) = false
+      ∧ (decodeUser m.ppid m.data).isSome = true)
+    (harmed : msgs.length ≤ (echoes i e).length) :
+    ∃ e' outs, (deliver msgs).run.run (e, l) = (.ok (), (e', l ++ outs))
+      ∧ e'.dcQueue = e.dcQueue ++ ((echoes i e).take msgs.length).map (echoEntry i)
+      ∧ echoes i e' = (echoes i e).drop msgs.length ∧ EchoReady sid i e'
+      ∧ e'.rx = e.rx ∧ e'.inStreams = e.inStreams
+      ∧ msgEvents outs = msgs.filterMap (fun m => (decodeUser m.ppid m.data).map fun v => (i, v.1, v.2)) :=
+  deliver_echo_order sid i msgs e l hready hmsgs harmed
+
+/-- non-vacuity: two messages, two armed echo handlers (and a handler of another channel in between). -/
+example :
+    let e : Ep := { (Ep.init true 1 100) with
+      dataChannels := [(4, 0)], chans := [{ id := some 4, label := [], protocol := [], ready := 1 }]
+      reactions := [(3, 0, true, [104, 105]), (3, 7, false, [1]), (3, 0, false, [])] }
+    EchoReady 4 0 e ∧ echoes 0 e = [(3, 0, true, [104, 105]), (3, 0, false, [])]
+      ∧ (match (deliver [{ sid := 4, ppid := 51, data := [97] }, { sid := 4, ppid := 57, data := [0] }]).run.run (e, []) with
+          | (_, e', outs) => (e'.dcQueue, msgEvents outs))
+        = ([(0, 51, [104, 105]), (0, 57, [0])], [(0, true, [97]), (0, false, [])]) := by
+  refine ⟨⟨by decide, _, rfl, rfl, rfl⟩, by decide, by decide⟩
 
 /-! ## (e) PPID mapping of the data-channel layer -/
 
